@@ -308,10 +308,14 @@ def read_ids(path, delimiter=None, timestamptype=None, comments="#"):
         s = line.strip().split(delimiter)
         if len(s) < 3:
             continue
-        ids[timestamptype(s[-1])] = None
-        if len(s) == 4:
-            if s[-2] not in ['+', '-']:
-                ids[timestamptype(s[-2])] = None
+        try:
+            ids[timestamptype(s[-1])] = None
+            if len(s) == 4:
+                if s[-2] not in ['+', '-']:
+                    ids[timestamptype(s[-2])] = None
+        except:
+            f.close()
+            raise TypeError("Failed to convert timestamp %s to type %s." % (s[-1], timestamptype))
 
     f.flush()
     f.close()
